@@ -91,7 +91,7 @@ fn new_with_options(s: Str, lex_flags: LexFlags) -> (r: Result<ParsedLex, Vec<Le
 // character"); its char_indices scanner is not under contract, the classification regex it uses is pinned
 pub uninterp spec fn unesc(off: int, len: int) -> int;
 pub open spec fn unesc_tail(s: Str, skip: int) -> int { unesc(s.off + skip, s.len - skip) }
-//@expect file=lrlex/src/lib/parser.rs re=`Regex::new\(r"\^\(\(\[xuU\]\[\[:xdigit:\]\]\)\|\[\[:digit:\]\]\|\[afnrtv\\\\\]\|\[pP\]\|\[dDsSwW\]\|\[ABz\]\)"\)\.unwrap\(\)`
+//@expect file=lrlex/src/lib/parser.rs re=`Regex::new\(r"\^\(\(\[xuU\]\[\[:xdigit:\]\{\]\)\|\[\[:digit:\]\]\|\[afnrtv\\\\\]\|\[pP\]\|\[dDsSwW\]\|\[ABz\]\)"\)\.unwrap\(\)`
 #[verifier::external_body] pub struct ReText { _x: usize }       // Cow<str>: the regex text handed to Rule::new
 impl ReText { pub uninterp spec fn v(&self) -> int; }
 #[verifier::external_body] pub fn cow_from(s: Str) -> (r: Str) ensures r == s { unimplemented!() }
